@@ -132,3 +132,102 @@ Definition chain (assoc : nat) (o : bop) (ts : list expr) : expr :=
   end.
 """
 ASSOC = {"left": 0, "right": 1, "balanced": 2}
+
+
+# ---------------------------------------------------------------- numeric channel
+from fractions import Fraction
+
+NICE = [0.5, 1.5, 0.75, 2.0, 0.25, 1.25, 0.625, 3.0, -0.5, -1.5, 0.375, 2.5, 0.875, -0.75, 1.0, 1.75]
+NICE_POS = [0.5, 0.75, 0.25, 0.625, 0.375, 0.875, 1.25, 1.5, 2.0]
+
+
+def pick_point(rng, names, positive_bias=0.7):
+    pool = NICE_POS if rng.random() < positive_bias else NICE
+    return {n: rng.choice(pool) for n in names}
+
+
+def pts_term(d: dict) -> str:
+    return ser.lst(f"({ser.s(k)}, {ser.q(v)})" for k, v in sorted(d.items()))
+
+
+def params_of(e, acc=None):
+    """Parameter objects reachable from an expression (for the parameter valuation)."""
+    from optyx.core.parameters import Parameter
+    from optyx.core.expressions import BinaryOp, UnaryOp
+    acc = {} if acc is None else acc
+    stack = [e]
+    seen = set()
+    while stack:
+        n = stack.pop()
+        if id(n) in seen:
+            continue
+        seen.add(id(n))
+        if isinstance(n, Parameter):
+            acc[n.name] = n
+        elif isinstance(n, BinaryOp):
+            stack += [n.left, n.right]
+        elif isinstance(n, UnaryOp):
+            stack.append(n.operand)
+        else:
+            for attr in ("vector", "left", "right", "expression", "matrix"):
+                sub = getattr(n, attr, None)
+                if sub is None:
+                    continue
+                for lst_attr in ("_expressions", "_variables"):
+                    items = getattr(sub, lst_attr, None)
+                    if items is not None:
+                        for it in items:
+                            if isinstance(it, list):
+                                stack += it
+                            else:
+                                stack.append(it)
+    return acc
+
+
+def fval(x):
+    """Python/NumPy scalar -> float, or None if it is not a finite scalar."""
+    try:
+        a = np.asarray(x, dtype=float)
+        if a.size != 1:
+            return None
+        f = float(a.reshape(()))
+    except Exception:
+        return None
+    return f if np.isfinite(f) else None
+
+
+NUM_CHECKER = "fun c => match c with (e, pts, ppts, obs) => worst (map (num_check e pts ppts) obs) end"
+NUM_TYPE = "expr * list (string * Q) * list (string * Q) * list Q"
+
+
+def run_classify(imports, defs, case_type, cases, checker, shard=200):
+    """Like coqrun.run_cases but for nat verdicts: returns (fails, undecided)."""
+    import re as _re
+    import os, tempfile, shutil
+    from concurrent.futures import ThreadPoolExecutor
+    os.makedirs(coqrun.WORK, exist_ok=True)
+    d = tempfile.mkdtemp(prefix="num_", dir=coqrun.WORK)
+    paths = []
+    try:
+        for k in range(0, max(len(cases), 1), shard):
+            path = os.path.join(d, f"cases_{k // shard}.v")
+            with open(path, "w") as f:
+                f.write(coqrun.PRELUDE.format(imports=imports))
+                f.write(defs + "\n")
+                f.write(f"Definition cases : list ({case_type}) := [\n" + ";\n".join(cases[k:k + shard]) + "\n].\n")
+                f.write(f"Eval vm_compute in (classify ({checker}) cases).\n")
+            paths.append((k, path))
+        with ThreadPoolExecutor(max_workers=12) as ex:
+            outs = list(ex.map(coqrun._run_shard, [(p, 900) for _, p in paths]))
+        fails, und = [], []
+        for (k, _), out in zip(paths, outs):
+            m = _re.search(r"=\s*\(\s*(\[.*?\])\s*(?:%\w+)?\s*,\s*(\[.*?\])\s*(?:%\w+)?\s*\)", out, _re.S)
+            if not m:
+                raise coqrun.CoqError("cannot parse classify output:\n" + out[-1500:])
+            for grp, acc in ((m.group(1), fails), (m.group(2), und)):
+                body = grp.strip()[1:-1].replace("%nat", "").strip()
+                if body:
+                    acc.extend(k + int(x) for x in _re.split(r"[;\s]+", body) if x)
+        return sorted(fails), sorted(und)
+    finally:
+        shutil.rmtree(d, ignore_errors=True)
